@@ -15,7 +15,7 @@ Trace == ndJsonDeserialize(IOEnv.TRACE)
 VARIABLES l, T, st, failed
 vars == <<l, T, st, failed>>
 
-NoTree == [n |-> 1, parent |-> <<0>>, caps |-> <<FALSE>>, lays |-> <<<<[x |-> 0, y |-> 0, w |-> 0, h |-> 0, z |-> 0]>>>>]
+NoTree == [n |-> 1, parent |-> <<0>>, caps |-> <<FALSE>>, lays |-> <<<<[x |-> 0, y |-> 0, w |-> 0, h |-> 0, z |-> 0, hid |-> FALSE]>>>>]
 
 Init == l = 1 /\ T = NoTree /\ st = St0 /\ failed = FALSE
 
@@ -47,11 +47,12 @@ Overlap(L, p) == p # <<>> /\ HitChain(T, L, p[1], p[2]) # <<>> /\ Ambiguous(L, 1
 
 Expect(e) ==
   CASE e.ev = "step" -> [chain |-> StepChain(T, st, e), focus |-> st.focus, hover |-> st.hover,
-                         route |-> IF StepChain(T, st, e) = <<>> THEN <<>> ELSE Route(T, StepChain(T, st, e)),
-                         moved |-> st.moved, tfin |-> st.tfin,
+                         route |-> IF StepChain(T, st, e) = <<>> \/ Undrawn(T, st, e) THEN <<>> ELSE Route(T, StepChain(T, st, e)),
+                         moved |-> st.moved, tfin |-> st.tfin, undrawn |-> Undrawn(T, st, e),
                          overlap |-> e.in.t = "mouse" /\ Overlap(T.lays[st.lay], <<e.in.x, e.in.y>>)]
     [] e.ev = "frame" -> [focus |-> st.focus, hover |-> st.hover, ptr |-> st.ptr, redraw |-> st.redraw, refresh |-> st.refresh,
-                          moved |-> st.moved, tfin |-> st.tfin, overlap |-> Overlap(T.lays[e.lay], st.ptr)]
+                          moved |-> st.moved, tfin |-> st.tfin, overlap |-> Overlap(T.lays[e.lay], st.ptr),
+                          undrawn |-> ~Present(T, T.lays[e.lay], st.focus)]
     [] OTHER -> [focus |-> st.focus]
 
 Next ==
